@@ -124,6 +124,8 @@ module N :
 
 val nth : int -> 'a1 list -> 'a1 -> 'a1
 
+val rev : 'a1 list -> 'a1 list
+
 val map : ('a1 -> 'a2) -> 'a1 list -> 'a2 list
 
 val flat_map : ('a1 -> 'a2 list) -> 'a1 list -> 'a2 list
@@ -438,6 +440,8 @@ val det_spec : int -> (int -> z) -> z
 
 val prod0 : int list -> int
 
+val flat : int list -> int list -> int
+
 val unflat : int list -> int -> int list
 
 type urange = { uf : z; ul : z; us : z }
@@ -483,6 +487,12 @@ val rv_write :
 val filter_write :
   ('a1 -> 'a1 -> 'a1) -> (int -> bool) -> (int -> 'a1) -> int -> (int -> 'a1)
   -> int -> 'a1
+
+val rm_of_counter : int list -> int -> int
+
+val torowmajor : int list -> (int -> 'a1) -> int -> 'a1
+
+val tocolumnmajor : int list -> (int -> 'a1) -> int -> 'a1
 
 val run_matmul_Z :
   cfg -> ety -> int -> int -> int -> z list -> z list -> z list
@@ -530,3 +540,7 @@ val run_idx_row : int -> int -> int list -> int list
 val run_idx_it_range : int -> int list -> int -> ((z * z) * z) -> int list
 
 val run_idx_range_it : int -> int -> ((z * z) * z) -> int list -> int list
+
+val run_torowmajor : int list -> int list
+
+val run_tocolumnmajor : int list -> int list
